@@ -30,6 +30,7 @@ from ..util import to_bytes, urlsafe_b64encode, urlsafe_b64decode
 from ..registry import HeaderParameter
 from ..errors import (
     InvalidKeyLengthError,
+    InvalidExchangeKeyError,
     DecodeError,
 )
 
@@ -225,7 +226,11 @@ class ECDHESAlgModel(JWEKeyAgreement):
         assert recipient_key is not None
 
         self.check_key_type(recipient_key)
-        ephemeral_key = recipient_key.import_key(headers["epk"])
+        try:
+            ephemeral_key = recipient_key.import_key(headers["epk"])
+        except ValueError:
+            # the "epk" is not a public key of the recipient key's type
+            raise InvalidExchangeKeyError()
         shared_key = recipient_key.exchange_derive_key(ephemeral_key)
         return derive_key_for_concat_kdf(shared_key, headers, enc.cek_size, self.key_size)
 
